@@ -951,6 +951,16 @@ def check_C16(chk, tier, seed):
             chk.corr_break("observation differs from the model", dict(case=c, impl=short(im, 2000), model=short(mobs, 2000)))
         if i % max(1, len(cases) // 6) == 0:
             chk.sample(dict(case=c, impl=short(im, 160), P=ok))
+    # sixteen million names nobody declares, asked of a dictionary holding the built-in and the 3GPP documents (about 500 names):
+    # every one is refused - a name is compared as a name (an index that compares 32-bit digests only meets a collision among these
+    # with probability 0.84, one that compares 16 bits always)
+    both = dict_line("both", [load_toks(xml) for _, xml in shipped_dicts()])
+    im = core.run_sharded([eng.harness, "codec"], eng.prelude + [both], ["UNKNAMES both 16"], shards=1, timeout=900)[0]
+    chk.case("UNKNAMES both 16", True)
+    chk.validated += 1
+    chk.count("millions-of-undeclared-names")
+    if not im.startswith("UNKNAMES tried=16000000 accepted=0"):
+        chk.violation("a name no dictionary declares was accepted by Avp::from_name: " + short(im, 200), dict(case="UNKNAMES both 16", prelude_extra=short(both, 200), impl=short(im, 300)))
     # a fresh dictionary shared by eight threads whose first by-name lookups overlap (300 dictionaries, one after the other)
     im = core.run_sharded([eng.harness, "codec"], eng.prelude, ["NAMERACE 300"], shards=1, timeout=600)[0]
     chk.case("NAMERACE 300", True)
